@@ -54,7 +54,7 @@ class Z3Backend:
 
         self.V = V
         self.sorts = {"RS": V.RS, "Pred": smt.Ref, "Expr": smt.Ref, "Callable": smt.Ref, "Tag": smt.Tag, "TagSet": smt.TagSet, "Int": smt.IntS,
-                      "OptInt": smt.OptInt, "Terms": V.SeqRef.sort, "Row": V.Row, "Bool": smt.BoolS}
+                      "OptInt": smt.OptInt, "Terms": V.SeqRef.sort, "Callables": V.SeqRef.sort, "Row": V.Row, "Bool": smt.BoolS}
 
     def var(self, name, kind):
         return z3.Const(name, self.sorts[kind])
@@ -84,6 +84,11 @@ class Z3Backend:
     def dedup_key(self, K, X): return self.V.s_dedup_key(K, X)
     def mapc(self, t, cl, X): return self.V.s_mapc(t, cl, X)
     def filterc(self, cl, X): return self.V.s_filterc(cl, X)
+    def sortc(self, cs, d, X): return self.V.s_sortc(cs, d, X)
+    def tsuffix(self, ts, a): return self.V.tsuffix(ts, a)
+    def tslice(self, ts, a, b): return self.V.tslice(ts, a, b)
+    def den_terms(self, cs, ts, a, b): return self.V.den_terms(cs, ts, a, b)
+    def same_dir(self, ts, a, b, d): return self.V.same_dir(ts, a, b, d)
     def snoc(self, X, r): return self.V.rsnoc(X, r)
     def prefix(self, X, i): return self.V.rprefix(X, i)
     def nth(self, X, i): return self.V.rnth(X, i)
@@ -578,6 +583,31 @@ def _(B, K, C):
 @law("dedup-key-unit", "T1", "K:TagSet", lambda B, K: B.dedup_key(K, B.unit()))
 def _(B, K):
     return B.eq(B.dedup_key(K, B.unit()), B.unit())
+
+
+# ---- the Sort arm of the iteration engine: passes per group of same-direction terms, from the last group to the first
+@law("tsuffix-len", "L", "ts:Terms a:Int", lambda B, ts, a: B.tsuffix(ts, a))
+def _(B, ts, a):
+    return B.implies(B.and_(B.le(B.i(0), a), B.le(a, B.tlen(ts))), B.eq(B.tlen(B.tsuffix(ts, a)), B.sub(B.tlen(ts), a)))
+
+
+@law("tsuffix-zero", "T1", "ts:Terms", lambda B, ts: B.tsuffix(ts, B.i(0)))
+def _(B, ts):
+    return B.eq(B.tsuffix(ts, B.i(0)), ts)
+
+
+@law("sort-suffix-split", "T2", "ts:Terms a:Int b:Int X:RS", lambda B, ts, a, b, X: B.sort(B.tslice(ts, a, b), B.sort(B.tsuffix(ts, b), X)))
+def _(B, ts, a, b, X):
+    return B.implies(B.and_(B.le(B.i(0), a), B.le(a, b), B.le(b, B.tlen(ts))),
+                     B.eq(B.sort(B.tsuffix(ts, a), X), B.sort(B.tslice(ts, a, b), B.sort(B.tsuffix(ts, b), X))))
+
+
+# one stable sort by the tuple of a same-direction group's values == the passes of the group's terms one by one
+# (correctness of LSD radix sort for stable passes)
+@law("sortc-group", "T3", "cs:Callables ts:Terms a:Int b:Int d:Bool Y:RS", lambda B, cs, ts, a, b, d, Y: (B.sortc(cs, d, Y), B.den_terms(cs, ts, a, b)))
+def _(B, cs, ts, a, b, d, Y):
+    return B.implies(B.and_(B.le(B.i(0), a), B.le(a, b), B.le(b, B.tlen(ts)), B.den_terms(cs, ts, a, b), B.same_dir(ts, a, b, d)),
+                     B.eq(B.sortc(cs, d, Y), B.sort(B.tslice(ts, a, b), Y)))
 
 
 # ---- integer arithmetic (range literals)
